@@ -108,6 +108,17 @@ func NewFile(
 	}
 }
 
+// flushInfo hands the owner and the times of an entry to tar.FileInfoHeader, which takes them from Sys() only if
+// that is a *tar.Header
+type flushInfo struct {
+	os.FileInfo
+	hdr *tar.Header
+}
+
+func (i flushInfo) Sys() interface{} {
+	return i.hdr
+}
+
 func (f *File) syncWithoutLocking() error {
 	f.log.Trace("File.syncWithoutLocking", map[string]interface{}{
 		"name": f.name,
@@ -120,14 +131,15 @@ func (f *File) syncWithoutLocking() error {
 	if f.writeBuf != nil {
 		// The entry may have been removed (or replaced by a directory) while the handle was open; flushing would
 		// bring it back without its parents
-		if existing, err := inventory.Stat(
+		existing, err := inventory.Stat(
 			f.metadata,
 
 			f.path,
 			false,
 
 			f.onHeader,
-		); err == sql.ErrNoRows || (err == nil && existing.Typeflag == tar.TypeDir) {
+		)
+		if err == sql.ErrNoRows || (err == nil && existing.Typeflag == tar.TypeDir) {
 			return nil
 		}
 
@@ -165,6 +177,20 @@ func (f *File) syncWithoutLocking() error {
 					changeTime = time.Unix(0, sys.Ctim.Nano())
 				}
 
+				// Writing content changes neither the owner nor the access and change times of the entry
+				owner := &tar.Header{
+					Uid: uid,
+					Gid: gid,
+				}
+				if existing != nil {
+					owner.Uid = existing.Uid
+					owner.Gid = existing.Gid
+					owner.Uname = existing.Uname
+					owner.Gname = existing.Gname
+					owner.AccessTime = existing.AccessTime
+					owner.ChangeTime = existing.ChangeTime
+				}
+
 				f.info = NewFileInfo(
 					f.info.Name(),
 					size,
@@ -186,7 +212,7 @@ func (f *File) syncWithoutLocking() error {
 
 						return readSeekNopCloser{f.writeBuf}, nil
 					},
-					Info: f.info,
+					Info: flushInfo{f.info, owner},
 					Path: f.path,
 					Link: f.link,
 				}, nil
